@@ -100,3 +100,291 @@ def explore_step_run(ix, quiet, capture, with_scenario, hooks_may_raise_base=Fal
         }
         exits.append(Exit(s, k, v, facts))
     return it, exits
+
+
+# ----------------------------------------------------------------------
+# Scenario.run
+# ----------------------------------------------------------------------
+import ast as _ast
+
+
+def find_loops(func, pred):
+    """For-nodes of ``func`` whose body satisfies pred(for_node)."""
+    return [n for n in _ast.walk(func.node) if isinstance(n, _ast.For) and pred(n)]
+
+
+def _calls_method_on_target(for_node, meth):
+    tgt = for_node.target.id if isinstance(for_node.target, _ast.Name) else None
+    for n in _ast.walk(for_node):
+        if isinstance(n, _ast.Call) and isinstance(n.func, _ast.Attribute) and n.func.attr == meth \
+                and isinstance(n.func.value, _ast.Name) and n.func.value.id == tgt:
+            return True
+    return False
+
+
+STEP_SYMBOLS_QUICK = ["passed", "pending_warn", "failed", "error", "error+abort", "undefined", "pending",
+                      "hook_error", "skip-scenario"]
+
+
+def step_run_summary(world, symbols):
+    """Summary of Step.run (proved by V1/S1/F1 on its own source): sets the step's
+    status, returns False iff it has_failed, emits match+result to each formatter."""
+    def stub(it, st, args, kw, node):
+        step = args[0]
+        outs = []
+        for sym in symbols:
+            s = st.fork()
+            name = sym.split("+")[0]
+            o = s.obj(step)
+            if sym == "skip-scenario":
+                o.fields["status"] = S("skipped")
+                cur = s.ghost.get("current_element")
+                if cur is not None:
+                    s.heap[cur].fields["should_skip"] = True
+                ret = True
+            else:
+                o.fields["status"] = S(name)
+                from . import oracle
+                ret = name not in oracle.HAS_FAILED
+            if sym.endswith("+abort"):
+                s.ghost["aborted"] = True
+                it.emit(s, ("abort",))
+            s.note("%s: step.run(): step ends %s, returns %s" % (it.loc(node), sym, ret))
+            it.emit(s, ("step.run", step.oid, sym, ret))
+            fm = s.obj(world._runner_of(s)).fields["formatters"]
+            for f in s.obj(fm).items:
+                it.emit(s, ("fmt", s.obj(f).fields["idx"], "match", None))
+                it.emit(s, ("fmt", s.obj(f).fields["idx"], "result", step.oid))
+            outs.append((s, "val", ret))
+        return outs
+    return stub
+
+
+def explore_scenario_run(ix, symbols=None, cls="behave.model:Scenario", mutate=None, continue_after_failed=False,
+                         thorough=False):
+    from .monitors import scope_monitor, scenario_capture_monitor
+    w = World(ix)
+    func = ix.func("behave.model:Scenario.run")
+    if mutate:
+        func = mutate(func)
+    run_loops = find_loops(func, lambda n: _calls_method_on_target(n, "run"))
+    if len(run_loops) != 1:
+        raise AnalysisError("Scenario.run: expected exactly one step loop calling step.run(), found %d" % len(run_loops))
+    run_loop = id(run_loops[0])
+
+    # ---- monitors -------------------------------------------------------
+    def rec(st, ev):
+        g = st.ghost
+        k = ev[0]
+        if k == "hook":
+            name, failed = ev[1], ev[3]
+            state = g.get("hk", "idle")
+            if failed is True and name.startswith("before"):
+                g["before_failed"] = True
+            if failed is True:
+                g["any_hook_failed"] = True
+            order = {"idle": 0, "BT": 1, "B": 2, "BODY": 3, "A": 4, "AT": 5}
+            nxt = {"before_tag": "BT", "before_scenario": "B", "after_scenario": "A", "after_tag": "AT"}.get(name)
+            if nxt is None:
+                g.setdefault("hk.err", "unexpected hook %s" % name)
+                return
+            allowed = {"BT": ("idle", "BT"), "B": ("idle", "BT"), "A": ("B", "BODY"), "AT": ("A", "AT")}[nxt]
+            if state not in allowed:
+                g.setdefault("hk.err", "hook %s in bracket state %s" % (name, state))
+            g["hk"] = nxt
+            if ev[2] is not None and ev[2] != g.get("current_element") and "tag" not in name:
+                g.setdefault("hk.err", "hook %s called for a different element" % name)
+        elif k == "step.run":
+            if g.get("hk") in ("B",):
+                g["hk"] = "BODY"
+            elif g.get("hk") in ("A", "AT", "BT"):
+                g.setdefault("hk.err", "step run in bracket state %s" % g.get("hk"))
+            if g.get("before_failed"):
+                g.setdefault("hk.err", "step run although a before hook failed")
+            if g.get("step_failed") and not continue_after_failed:
+                g.setdefault("s3.err", "step.run() after an earlier step of the scenario did not pass")
+            if g.get("skipped_by_step"):
+                g.setdefault("s3.err", "step.run() after a step skipped the scenario")
+            g["n_run"] = 1 if g.get("n_run", 0) == 0 else GE2
+            if ev[3] is False:
+                g["step_failed"] = True
+            if ev[2] == "skip-scenario":
+                g["skipped_by_step"] = True
+            g["iter_run"] = True
+        elif k == "iter" and ev[1] == run_loop:
+            # close the previous iteration
+            _close_iteration(st)
+            g["phase"] = "loop"
+            g["iter_open"] = True
+            g["iter_result"] = False
+            g["iter_run"] = False
+            g["cur_step"] = ev[3]
+        elif k == "loopexit" and ev[1] == run_loop:
+            _close_iteration(st)
+            g["iter_open"] = False
+            g["phase"] = "after"
+        elif k == "fmt":
+            i, m = ev[1], ev[2]
+            key = "f%d" % i
+            cur = g.get(key, "start")
+            t = {("start", "scenario"): "scn", ("scn", "step"): "ann", ("ann", "step"): "ann",
+                 ("scn", "match"): "m", ("ann", "match"): "m", ("r", "match"): "m", ("m", "result"): "r"}
+            nxt = t.get((cur, m))
+            if nxt is None:
+                g.setdefault("fmt.err", "formatter %d: %s after %s" % (i, m, cur))
+            else:
+                g[key] = nxt
+            if m == "result":
+                if g.get("iter_open"):
+                    g["iter_result"] = True
+                    if g.get("gap"):
+                        g.setdefault("f2.err", "result emitted for a step after an earlier step of the same "
+                                               "scenario got none (formatters that count steps go out of step)")
+        elif k == "pop":
+            if ev[1]:
+                g["pop_raised"] = True
+        elif k == "append" and ev[2] == "undefined_steps":
+            g["undefined_added"] = True
+            g["pending_undef"] = False
+        elif k == "find_match":
+            if ev[1] is False and g.get("iter_open"):
+                g["pending_undef"] = True
+        elif k == "setattr" and ev[3] == "_cached_status" and ev[1] == g.get("current_element"):
+            v = ev[4]
+            final = isinstance(v, EnumVal) and v.name != "untested"
+            g["cached_last"] = (g.get("phase", "before"), "final" if final else
+                                ("untested" if isinstance(v, EnumVal) else "computed"))
+
+    def _close_iteration(st):
+        g = st.ghost
+        if not g.get("iter_open"):
+            return
+        if not g.get("iter_result"):
+            g["gap"] = True
+        if g.get("pending_undef"):
+            g.setdefault("v2.err", "a step without matching definition was not appended to runner.undefined_steps")
+            g["pending_undef"] = False
+        cs = g.get("cur_step")
+        if isinstance(cs, Ref) and cs.oid in st.heap:
+            stv = st.heap[cs.oid].fields.get("status")
+            if isinstance(stv, Top) and stv.tag == "step.status0":
+                g["unassigned_step"] = True
+            elif isinstance(stv, EnumVal):
+                if not g.get("iter_run"):
+                    if stv.name not in ("skipped", "undefined", "untested"):
+                        g.setdefault("s3.err", "step that was not run was given status %s" % stv.name)
+                    g["notrun_" + stv.name] = True
+        g["cur_step"] = None
+
+    mons = MonitorSet([Recorder(rec), scope_monitor(), scenario_capture_monitor()])
+
+    def on_return(f, st, kind, val):
+        if f.qualname == "Scenario.should_run" and kind == "return" or (f.qualname == "Scenario.should_run" and kind == "next"):
+            n = st.ghost.get("n_should_run", 0)
+            st.ghost["should_run#%d" % (n + 1)] = val
+            st.ghost["n_should_run"] = n + 1
+
+    stubs = dict(w.stubs)
+    symbols = symbols or STEP_SYMBOLS_QUICK
+    stubs["Step.run"] = step_run_summary(w, symbols)
+    stubs["TagAndStatusStatement.effective_tags"] = lambda it, st, a, k, n: [(st, "val", Top("effective_tags", True))]
+
+    def compute_status(it, st, args, kw, node):
+        from . import oracle
+        if thorough:
+            return [(st, "val", Top("computed-status", True, domain=tuple(S(n) for n in oracle.SCENARIO_STATUSES)))]
+        return [(st, "val", Top("computed-status", True))]
+    stubs["Scenario.compute_status"] = compute_status
+
+    def tags_check(it, st, args, kw, node):
+        s2 = st.fork()
+        st.note("%s: tag expression selects the scenario" % it.loc(node))
+        s2.note("%s: tag expression does not select the scenario" % it.loc(node))
+        return [(st, "val", True), (s2, "val", False)]
+    stubs["TagExprStub.check"] = tags_check
+
+    def name_search(it, st, args, kw, node):
+        s2 = st.fork()
+        return [(st, "val", Top("match-object", True, truth=True)), (s2, "val", None)]
+    stubs["NameReStub.search"] = name_search
+    attr_stubs = {"RunnerStub.aborted": lambda it, st, base, node: w.read_aborted(it, st, node)}
+    it = Interp(ix, stubs=stubs, on_event=mons, name="Scenario.run", on_return=on_return, attr_stubs=attr_stubs)
+
+    st = w.new_state()
+    mons.init(st)
+    cfg = w.make_config(st)
+    st.obj(cfg).field_domains["name"] = (None, "pattern") if thorough else (None,)
+    runner = w.make_runner(st, cfg)
+    ci = ix.cls(cls)
+
+    def tag_factory(interp, s):
+        return [(s, Top("tag", True), "tag")]
+
+    def step_factory(interp, s):
+        ref = w.make_step(s, label="step")
+        return [(s, ref, "step")]
+
+    def absl(name, factory):
+        o = HObj("list", kind="list", items=None, label=name)
+        o.base = name
+        o.fields["@seq"] = AbsSeq(name, factory)
+        return st.alloc(o)
+
+    fields = {
+        "tags": absl("tags", tag_factory),
+        "steps": absl("steps", step_factory),
+        "_background_steps": absl("bgsteps", step_factory),
+        "background": Top("scenario.background", True, domain=(None, "bg")),
+        "_use_background": True,
+        "should_skip": Top("bool:scenario.should_skip0", True, domain=(False, True)),
+        "skip_reason": None,
+        "hook_failed": Top("bool:scenario.hook_failed0", True, domain=(False, True)),
+        "_cached_status": Top("scenario.cached0", True),
+        "was_dry_run": Top("was_dry_run0", True),
+        "captured": st.alloc(HObj("CapturedStub", {}, label="captured")),
+        "name": Top("scenario.name", True), "keyword": Top("kw", True),
+        "error_message": None, "exception": None, "exc_traceback": None,
+        "parent": Top("parent", True), "feature": Top("feature", True),
+        "_row": Top("row", True), "description": Top("descr", True),
+        "location": Top("loc", True),
+    }
+    scen = st.alloc(HObj(ci, fields, label="scenario"))
+    if continue_after_failed:
+        st.obj(scen).fields["continue_after_failed_step"] = True
+    st.ghost["current_element"] = scen.oid
+    st.ghost["hooks_may_raise_base"] = False
+    if not thorough:
+        st.ghost["no_user_abort"] = True
+    st.pinned = st.pinned + (scen.oid,)
+    outs = it.run(func, st, [runner], {}, self_val=scen)
+    exits = []
+    for (s, k, v) in outs:
+        g = s.ghost
+        so = s.obj(scen)
+        cfgo = s.obj(cfg)
+        facts = {
+            "ret": v if k == "val" else None,
+            "hook_failed": so.fields.get("hook_failed"),
+            "cached": so.fields.get("_cached_status"),
+            "should_skip": so.fields.get("should_skip"),
+            "dry_run": cfgo.fields.get("dry_run") if isinstance(cfgo.fields.get("dry_run"), bool) else None,
+            "show_skipped": cfgo.fields.get("show_skipped") if isinstance(cfgo.fields.get("show_skipped"), bool) else None,
+            "selected1": g.get("should_run#1"), "selected2": g.get("should_run#2"),
+            "aborted": g.get("aborted"), "aborted_at_entry": g.get("aborted_at_entry", False),
+            "step_failed": g.get("step_failed", False), "pop_raised": g.get("pop_raised", False),
+            "any_hook_failed": g.get("any_hook_failed", False), "before_failed": g.get("before_failed", False),
+            "hk": g.get("hk", "idle"), "hk_err": g.get("hk.err"), "s3_err": g.get("s3.err"),
+            "fmt_err": g.get("fmt.err"), "f2_err": g.get("f2.err"),
+            "fmt": [g.get("f%d" % i, "start") for i in range(w.n_formatters)],
+            "scope": g.get("scope"), "scope_err": g.get("scope.err"),
+            "scap": g.get("scap"), "scap_err": g.get("scap.err"),
+            "n_run": g.get("n_run", 0), "unassigned_step": g.get("unassigned_step", False),
+            "undefined_added": g.get("undefined_added", False),
+            "skipped_by_step": g.get("skipped_by_step", False),
+            "gap": g.get("gap", False), "v2_err": g.get("v2.err"),
+            "cached_last": g.get("cached_last"),
+            "notrun": sorted(k[7:] for k in g if k.startswith("notrun_")),
+            "imprecise": list(s.imprecise),
+        }
+        exits.append(Exit(s, k, v, facts))
+    return it, exits
